@@ -1197,3 +1197,57 @@ Example C08_std_contain_file_slash_inhabited :
        [(B "/p", B "file://h.x/p"); (B "\p", B "file://h.x/p"); (B "/a/../b?k#g", B "file://h.x/b?k#g")] = true
   /\ std_fs_agree_case (B "file:///C:/tmp/d?q") [(B "/p", B "file:///C:/p"); (B "/", B "file:///C:/")] = true.
 Proof. exact std_contain_file_slash_inhabited. Qed.
+
+(* 11.5 path-relative references against ANY file base: section 10.1 without its premise on the last segment of the base
+   path - the Standard's "shorten" in general form (shorten_f: a path that is a single normalized drive letter is kept,
+   otherwise the last segment goes); success, the front is the base's, closed form of the result *)
+Theorem C08_std_contain_file_rel_any : forall shp input sb, spec_valid sb -> has_opaque_path sb = false ->
+  list_eqb (su_scheme sb) str_file = true -> std_file_rel_pre (spec_clean input) = true ->
+  exists su, spec_basic_url_parse shp input (Some sb) = BDone su /\ spec_same_front sb su
+    /\ su = file_tail (fkeep sb (shorten_f (Whatwg.path_segments sb)))
+                      (spath_f (spec_clean input) (shorten_f (Whatwg.path_segments sb)) []).
+Proof. exact std_contain_file_rel_any. Qed.
+Check C08_std_contain_file_rel_any : forall shp input sb, spec_valid sb -> has_opaque_path sb = false ->
+  list_eqb (su_scheme sb) str_file = true ->
+  (match spec_scheme (spec_clean input) with None => true | Some _ => false end
+   && match spec_clean input with
+      | c :: _ => negb (is_sl c) && negb (c =? 63) && negb (c =? 35)
+                  && negb (starts_with_windows_drive_letter (spec_clean input))
+      | [] => false
+      end) = true ->
+  exists su, spec_basic_url_parse shp input (Some sb) = BDone su
+    /\ (su_scheme su = su_scheme sb /\ su_username su = su_username sb /\ su_password su = su_password sb
+        /\ su_host su = su_host sb /\ su_port su = su_port sb)
+    /\ su = file_tail (fkeep sb (shorten_f (Whatwg.path_segments sb)))
+                      (spath_f (spec_clean input) (shorten_f (Whatwg.path_segments sb)) []).
+Print Assumptions C08_std_contain_file_rel_any.
+
+(* 11.6 the Standard-side containment law for FILE bases with NO premise on the base path: every file base record
+   (spec_valid, not opaque) and every reference whose cleaned text is empty, '?'-led, '#'-led, led by exactly one '/' or
+   '\', or scheme-less with a first character outside '/', '\', '?', '#' and not starting with a Windows drive letter.
+   Outside: a reference with a scheme, two leading slash characters (the authority is the reference's), a reference
+   starting with a Windows drive letter ("C:/x", "C|": the Standard's file state takes neither host nor path of the base;
+   the host of the result is then the empty host) *)
+Theorem C08_std_contain_file_any : forall shp input sb, spec_valid sb -> has_opaque_path sb = false ->
+  list_eqb (su_scheme sb) str_file = true -> std_file_any_pre (spec_clean input) = true ->
+  exists su, spec_basic_url_parse shp input (Some sb) = BDone su /\ spec_same_front sb su.
+Proof. exact std_contain_file_any. Qed.
+Check C08_std_contain_file_any : forall shp input sb, spec_valid sb -> has_opaque_path sb = false ->
+  list_eqb (su_scheme sb) str_file = true ->
+  (std_file_simple_pre (spec_clean input) || std_file_one_pre (spec_clean input)
+   || std_file_rel_pre (spec_clean input)) = true ->
+  exists su, spec_basic_url_parse shp input (Some sb) = BDone su
+    /\ su_scheme su = su_scheme sb /\ su_username su = su_username sb /\ su_password su = su_password sb
+    /\ su_host su = su_host sb /\ su_port su = su_port sb.
+Print Assumptions C08_std_contain_file_any.
+(* non-vacuity: bases file:///C: (the drive letter is not shortened away: "x" gives file:///C:/x, "../y?k" gives
+   file:///C:/y?k), file://h.x/a/C: (a drive-letter-shaped LAST segment that is not the first is dropped as usual) and
+   file://h.x/tmp/d?q with the references "", "?x", "#f", "/p", "\p", "e/f": premise met, the Standard succeeds with the
+   href shown, scheme / host / port those of the base *)
+Example C08_std_contain_file_any_inhabited :
+  std_fs_any_case (B "file:///C:") [(B "x", B "file:///C:/x"); (B "../y?k", B "file:///C:/y?k"); (B "", B "file:///C:");
+                                    (B "/p", B "file:///C:/p")] = true
+  /\ std_fs_any_case (B "file://h.x/a/C:") [(B "x", B "file://h.x/a/x"); (B "..", B "file://h.x/"); (B "/D:/z", B "file://h.x/D:/z")] = true
+  /\ std_fs_any_case (B "file://h.x/tmp/d?q") [(B "", B "file://h.x/tmp/d?q"); (B "?x", B "file://h.x/tmp/d?x");
+       (B "#f", B "file://h.x/tmp/d?q#f"); (B "/p", B "file://h.x/p"); (B "\p", B "file://h.x/p"); (B "e/f", B "file://h.x/tmp/e/f")] = true.
+Proof. exact std_contain_file_any_inhabited. Qed.
